@@ -13,9 +13,10 @@
 //	mode burst:     all goroutines run all their A calls, barrier, then all their B calls (A‖A, then B‖B)
 //	mode split:     even workers run B on inputs prepared alone, odd workers run A;B       (A‖B)
 //
-// Before the concurrent phase every worker runs its `distinct` different round trips ALONE (one
-// after the other, nothing else running); iteration i of the concurrent phase repeats round trip
-// i mod distinct. Monitor (decided here, reported to the parent): the canonical result of every
+// Before the concurrent phase — or after it (alone_after_concurrent: the very first use of the
+// keys and entry points then happens concurrently) — every worker runs its `distinct` different
+// round trips ALONE (one after the other, nothing else running); iteration i of the concurrent
+// phase repeats round trip i mod distinct. Monitor (decided here, reported to the parent): the canonical result of every
 // concurrent round trip equals the result of the same round trip run alone — which for a
 // supported algorithm is "message restored, no error, no panic" (+ the ciphertext/serialisation
 // hash where the algorithm is deterministic).
@@ -72,6 +73,10 @@ type Case struct {
 	Distinct int    `json:"distinct_round_trips_per_goroutine"`
 	Seed     uint64 `json:"seed"`
 	MaxMs    int    `json:"max_ms"` // the concurrent phase stops starting new iterations after this long (not a failure)
+	// the round trips are run alone AFTER the concurrent phase instead of before it: the first use of
+	// every key, algorithm and entry point in the process then happens concurrently (lazily filled
+	// package-level caches and tables are written in the concurrent phase, not warmed up alone)
+	SoloAfter bool `json:"alone_after_concurrent,omitempty"`
 }
 
 type Diff struct {
@@ -98,6 +103,7 @@ type Result struct {
 	ElapsedMs  int      `json:"elapsed_ms"`
 	Runs       int      `json:"runs"`
 	Note       string   `json:"note,omitempty"`
+	Skipped    bool     `json:"skipped_time_budget,omitempty"`
 }
 
 // ---------- keys: one per worker and kind, generated once per process ----------
@@ -843,6 +849,7 @@ func runCase(c Case, ks *keyStore) (r Result) {
 	if c.MaxMs <= 0 {
 		c.MaxMs = 5000
 	}
+	soloFirst := !c.SoloAfter || c.Mode == "split" // split needs inputs prepared alone
 	ws := make([]*worker, c.G)
 	for w := range ws {
 		wk, err := mkWorker(c, w, ks)
@@ -856,36 +863,51 @@ func runCase(c Case, ks *keyStore) (r Result) {
 	// alone: one worker after the other, nothing else running
 	solo := make([][]string, c.G)
 	soloMid := make([][]any, c.G)
-	for w, wk := range ws {
-		solo[w] = make([]string, c.Distinct)
-		soloMid[w] = make([]any, c.Distinct)
-		for j := 0; j < c.Distinct; j++ {
-			mid, res := guardA(wk, j)
-			if res == "" {
-				res = guardB(wk, j, mid)
-			}
-			solo[w][j], soloMid[w][j] = res, mid
-			if r.SoloBad == "" && (strings.Contains(res, "PANIC") || (wk.supported && !strings.HasPrefix(res, "ok") && !expectedFailure(c.Family, res))) {
-				r.SoloBad = fmt.Sprintf("worker %d (%s), round trip %d run alone: %s", w, wk.alg, j, res)
+	runAlone := func() {
+		for w, wk := range ws {
+			solo[w] = make([]string, c.Distinct)
+			soloMid[w] = make([]any, c.Distinct)
+			for j := 0; j < c.Distinct; j++ {
+				mid, res := guardA(wk, j)
+				if res == "" {
+					res = guardB(wk, j, mid)
+				}
+				solo[w][j], soloMid[w][j] = res, mid
+				if r.SoloBad == "" && (strings.Contains(res, "PANIC") || (wk.supported && !strings.HasPrefix(res, "ok") && !expectedFailure(c.Family, res))) {
+					r.SoloBad = fmt.Sprintf("worker %d (%s), round trip %d run alone", w, wk.alg, j)
+					if !soloFirst {
+						r.SoloBad += " (after the concurrent phase)"
+					}
+					r.SoloBad += ": " + res
+				}
 			}
 		}
+		for w := range ws {
+			r.Alone = append(r.Alone, solo[w][0])
+		}
 	}
-	for w := range ws {
-		r.Alone = append(r.Alone, solo[w][0])
-	}
-	if r.SoloBad != "" {
-		return
+	if soloFirst {
+		runAlone()
+		if r.SoloBad != "" {
+			return
+		}
 	}
 	if c.Procs > 0 {
 		defer runtime.GOMAXPROCS(runtime.GOMAXPROCS(c.Procs))
 	}
 	r.Procs = runtime.GOMAXPROCS(0)
 
+	type rec struct {
+		i     int
+		stage string
+		res   string
+	}
 	var (
 		mu               sync.Mutex
 		stop             atomic.Bool
 		inflight, maxInf atomic.Int32
 		overlapped, ops  atomic.Int64
+		got              = make([][]rec, c.G) // alone-after-concurrent: what every round trip gave, compared afterwards
 	)
 	enter := func() {
 		cur := inflight.Add(1)
@@ -908,6 +930,22 @@ func runCase(c Case, ks *keyStore) (r Result) {
 		}
 		mu.Unlock()
 		stop.Store(true)
+	}
+	// check: false = this goroutine stops
+	check := func(w, i int, stage, res string) bool {
+		if soloFirst {
+			if want := solo[w][i%c.Distinct]; res != want {
+				report(w, i, stage, want, res)
+				return false
+			}
+			return true
+		}
+		got[w] = append(got[w], rec{i, stage, res})
+		if strings.Contains(res, "PANIC") {
+			stop.Store(true) // judged below, against the result alone
+			return false
+		}
+		return true
 	}
 	deadline := time.Now().Add(time.Duration(c.MaxMs) * time.Millisecond)
 	more := func(i int) bool {
@@ -952,40 +990,40 @@ func runCase(c Case, ks *keyStore) (r Result) {
 				res, stage = doB(w, j, mid), "B"
 			}
 			ops.Add(1)
-			if res != solo[w][j] {
-				report(w, i, stage, solo[w][j], res)
+			if !check(w, i, stage, res) {
 				return
 			}
 		}
 	}
 	switch c.Mode {
 	case "burst":
-		mids := make([][]any, c.G)
+		type midRec struct {
+			mid    any
+			failed bool
+		}
+		mids := make([][]midRec, c.G)
 		phase(func(w int) {
 			for i := 0; more(i); i++ {
-				j := i % c.Distinct
-				mid, res := doA(w, j)
+				mid, res := doA(w, i%c.Distinct)
 				if res != "" {
-					if res != solo[w][j] {
-						report(w, i, "A", solo[w][j], res)
+					// stage A failed: that is the result of this round trip
+					ops.Add(1)
+					if !check(w, i, "A", res) {
 						return
 					}
-					mid = nil
 				}
-				mids[w] = append(mids[w], mid)
+				mids[w] = append(mids[w], midRec{mid, res != ""})
 			}
 		})
 		deadline = time.Now().Add(time.Duration(c.MaxMs) * time.Millisecond)
 		phase(func(w int) {
 			for i := 0; i < len(mids[w]) && more(i); i++ {
-				j := i % c.Distinct
-				if mids[w][i] == nil {
+				if mids[w][i].failed {
 					continue
 				}
-				res := doB(w, j, mids[w][i])
+				res := doB(w, i%c.Distinct, mids[w][i].mid)
 				ops.Add(1)
-				if res != solo[w][j] {
-					report(w, i, "B", solo[w][j], res)
+				if !check(w, i, "B", res) {
 					return
 				}
 			}
@@ -1003,8 +1041,7 @@ func runCase(c Case, ks *keyStore) (r Result) {
 				}
 				res := doB(w, j, soloMid[w][j])
 				ops.Add(1)
-				if res != solo[w][j] {
-					report(w, i, "B", solo[w][j], res)
+				if !check(w, i, "B", res) {
 					return
 				}
 			}
@@ -1016,6 +1053,26 @@ func runCase(c Case, ks *keyStore) (r Result) {
 	r.Ops = int(ops.Load())
 	r.Overlapped = int(overlapped.Load())
 	r.MaxInfl = int(maxInf.Load())
+	if !soloFirst {
+		runAlone()
+		if r.SoloBad != "" {
+			return
+		}
+		for w := range got {
+			seen := false
+			for _, g := range got[w] {
+				if want := solo[w][g.i%c.Distinct]; g.res != want {
+					if !seen {
+						r.NDiffs++ // as in the other order: goroutines that saw a difference
+						seen = true
+					}
+					if len(r.Diffs) < 4 {
+						r.Diffs = append(r.Diffs, Diff{w, g.i, ws[w].alg, g.stage, want, g.res})
+					}
+				}
+			}
+		}
+	}
 	return
 }
 
@@ -1029,6 +1086,7 @@ func main() {
 	casesF := flag.String("cases", "", "JSON file: list of cases")
 	from := flag.Int("from", 0, "first case index to run")
 	repeat := flag.Int("repeat", 1, "run every case up to this many times (stops at the first run with a difference)")
+	totalMs := flag.Int("total-ms", 0, "stop starting new cases after this long (0 = no limit); the remaining cases are reported as skipped")
 	list := flag.Bool("list", false, "print the algorithms of every family (from the tree under test) and exit")
 	flag.Parse()
 	if *list {
@@ -1052,9 +1110,18 @@ func main() {
 	}
 	ks := &keyStore{}
 	out := bufio.NewWriter(os.Stdout)
+	began := time.Now()
 	for i := *from; i < len(cases); i++ {
 		fmt.Fprintf(os.Stderr, "CASE %d\n", i)
 		var r Result
+		if *totalMs > 0 && time.Since(began) > time.Duration(*totalMs)*time.Millisecond {
+			r = Result{Index: i, Case: cases[i], Skipped: true}
+			b, _ := json.Marshal(r)
+			out.Write(b)
+			out.WriteByte('\n')
+			out.Flush()
+			continue
+		}
 		for k := 0; k < *repeat; k++ {
 			r = runCase(cases[i], ks)
 			r.Runs = k + 1
